@@ -20,7 +20,9 @@ RULE = ("random histories (<= 20 ops) of receive / all_waveforms / waveforms / i
         "pass-through, pedestal-subtracting, echo, clipping or rectifying front end; optional system-level trigger; built from an instance or "
         "via class + setup_antenna; inner-antenna queries interleaved); is_hit_mc_truth; receive of two polarisation "
         "components in one call, of an all-empty reception (EmptySignal, [EmptySignal, EmptySignal]) and of "
-        "[EmptySignal, Signal]; threshold 0 (a noisy dipole triggers on noise); function-backed signals that are non-zero "
+        "[EmptySignal, Signal]; receptions REFUSED with ValueError at the second or third component (other time grid, "
+        "power / undefined value type, raising response) which must leave everything unchanged; the list returned by "
+        "`waveforms` mutated (clear / reverse / append / del / extend) or kept across later operations; threshold 0 (a noisy dipole triggers on noise); function-backed signals that are non-zero "
         "outside their window (tone, tail, chirp) on a DipoleAntenna / system with the real response, compared between "
         "twins with different query histories; `times` arguments as float array / list / tuple / integer array; plus real-thermal-noise histories (seeded numpy RNG, "
         "Antenna / DipoleAntenna / AntennaSystem, make_noise / full_waveform / receive / all_waveforms / clear on 2-4 "
@@ -49,6 +51,11 @@ LEVEL_NOTE = ("assumed: numpy.interp is piecewise-linear interpolation with left
               "Received signals are values (sample lists) in the Lean model; that a query leaves function-backed stored "
               "signals, the caller's objects and other antennas sharing an object untouched is decided by the twin oracle "
               "of the search only. "
+              "Returned containers: on the unchanged tree only `waveforms` (antenna and system) returns a fresh list; "
+              "`all_waveforms` and `AntennaSystem.signals` return the live cache lists and `Antenna.signals` is a plain "
+              "attribute, so the 'returned list belongs to the caller' checks are made for `waveforms` only. A refused "
+              "reception is no operation of the Lean model (the state is untouched by construction); that the code leaves "
+              "the object untouched is decided by the run (private cache lengths, all later outputs) and the search. "
               "No _partial theorem; not proved: the system-side is_hit_mc_truth, LinearFE of the pedestal/echo front ends.")
 CHECKER_MODULES = ["PyrexVerif.Proofs.AntennaBook", "PyrexVerif.Proofs.AntennaInterp", "PyrexVerif.D.AntennaSM"]
 EXTRACTORS = []
@@ -110,7 +117,75 @@ class patched_noise:
 
 
 def _copy_response(signal, direction=None, polarization=None, force_real=False):
+    """stand-in for Antenna.apply_response (C08): a copy; like the real one it refuses (ValueError) a signal
+    that is neither voltage nor field"""
+    if signal.value_type not in (signal.Type.voltage, signal.Type.field):
+        raise ValueError("Signal's value type must be either voltage or field. Given " + str(signal.value_type))
     return signal.copy()
+
+
+# operations that exist only on the implementation side: the model state must not notice them
+SILENT = ("RX",)
+
+
+def silent_op(obj, op, held):
+    """RX: a reception given as a list of components that is REFUSED (ValueError) at the second or a later
+    component - the object must be left exactly as it was.  WX: the list returned by `waveforms` is the
+    caller's: mutating it must not change anything.  WH: keep a returned list; it must not change later.
+    -> None or a complaint"""
+    np, pyrex, Signal, FunctionSignal = _mods()
+    k = op[0]
+    if k == "RX":
+        t = np.array(op[2], dtype=float)
+        good = Signal(t, np.array(op[3], dtype=float), Signal.Type.voltage)
+        how = op[1]
+        if how == "grid":              # second component on a different time grid
+            bad = Signal(t + (t[1] - t[0]) / 2, np.array(op[3], dtype=float), Signal.Type.voltage)
+        elif how == "type":            # second component neither voltage nor field
+            bad = Signal(t, np.array(op[3], dtype=float), Signal.Type.power)
+        elif how == "undef":
+            bad = Signal(t, np.array(op[3], dtype=float), Signal.Type.undefined)
+        else:                          # the response of the second component raises
+
+            class Raiser(Signal):
+                def copy(self):
+                    raise ValueError("response callback refuses this component")
+            bad = Raiser(t, np.array(op[3], dtype=float), Signal.Type.voltage)
+        comps = [good, bad] if op[4] == 2 else [good, good.copy(), bad]
+        try:
+            obj.receive(comps, polarization=[(0, 0, 1)] * len(comps))
+        except ValueError:
+            return None
+        except Exception as e:
+            return "refused reception raised %s instead of ValueError" % type(e).__name__
+        return "a reception with an invalid component was accepted"
+    return None
+
+
+def held_changed(obj):
+    """lists returned by `waveforms` and kept by the caller must not change afterwards"""
+    return any([id(w) for w in l] != ids for l, ids in getattr(obj, "_held", []))
+
+
+def use_returned_list(obj, op, ws):
+    """WX: the list `waveforms` returned belongs to the caller - mutate it; WH: keep it"""
+    np, pyrex, Signal, FunctionSignal = _mods()
+    if op[0] == "WH":
+        if not hasattr(obj, "_held"):
+            obj._held = []
+        obj._held.append((ws, [id(w) for w in ws]))
+        return
+    how = op[1]
+    if how == "clear":
+        ws.clear()
+    elif how == "reverse":
+        ws.reverse()
+    elif how == "append":
+        ws.append(Signal(np.array([0.0, 1.0]), np.array([9.0, 9.0]), Signal.Type.voltage))
+    elif how == "del0":
+        del ws[:1]
+    else:
+        ws.extend(list(ws))
 
 
 def build(cfg):
@@ -194,6 +269,8 @@ def op_s(op):
         return "R %d" % len(op[1]) + "".join(" %s %s" % (frs(t), frs(v)) for t, v in zip(op[1], op[2]))
     if k == "R2":      # two polarisation components received in one call: what is stored is their sum
         return "R %d" % len(op[1]) + "".join(" %s %s" % (frs(t), frs(a + b)) for t, a, b in zip(op[1], op[2], op[3]))
+    if k in ("WX", "WH"):
+        return "W"
     if k in "FDN":
         return k + " " + grid_s(op[1])
     if k == "C":
@@ -205,6 +282,7 @@ def op_s(op):
 
 def request(cfg, ops, old=False):
     trig = "A" if cfg["thr"] is None else "T " + frs(cfg["thr"])
+    ops = [o for o in ops if o[0] not in SILENT]
     body = "%d " % len(ops) + " ".join(op_s(o) for o in ops)
     if cfg["kind"] == "sys":
         strig = trig if cfg.get("sthr") is None else "T " + frs(cfg["sthr"])
@@ -278,9 +356,12 @@ def apply_op(obj, op, is_sys):
     if k == "A":
         ws = obj.all_waveforms
         return "ws %d" % len(ws) + "".join(" " + wave_s(w) for w in ws)
-    if k == "W":
+    if k in ("W", "WX", "WH"):
         ws = obj.waveforms
-        return "ws %d" % len(ws) + "".join(" " + wave_s(w) for w in ws)
+        txt = "ws %d" % len(ws) + "".join(" " + wave_s(w) for w in ws)
+        if k != "W":
+            use_returned_list(obj, op, ws)          # after the report was taken
+        return txt
     if k == "S":
         ws = obj.signals
         return "ws %d" % len(ws) + "".join(" " + wave_s(w) for w in ws)
@@ -305,7 +386,13 @@ def run_impl(cfg, ops):
         obj = build(cfg)
         is_sys = cfg["kind"] == "sys"
         outs = []
+        complaints = []
         for op in ops:
+            if op[0] in SILENT:
+                why = silent_op(obj, op, None)
+                if why:
+                    complaints.append(why)
+                continue
             try:
                 o = apply_op(obj, op, is_sys)
             except Exception as e:  # the model has no exceptions on the generated inputs
@@ -315,7 +402,9 @@ def run_impl(cfg, ops):
             else:
                 s = st_s(obj)
             outs.append(o + " " + s)
-    return "ok " + " | ".join(outs)
+        if held_changed(obj):
+            complaints.append("a list returned by `waveforms` changed after it was handed out")
+    return "ok " + " | ".join(outs) + ("" if not complaints else " | BAD " + "; ".join(complaints))
 
 
 # --------------------------------------------------------------------------------------------
@@ -399,7 +488,14 @@ def gen_history(rng, cfg, nmax=20):
             ops.append(("D", gen_grid(rng, dt, uniform=uniform), form()))
         elif r < 0.87 and noise_ok:
             ops.append(("N", gen_grid(rng, dt, uniform=uniform), form()))
-        elif r < 0.94:
+        elif r < 0.895:
+            ts, vs = gen_signal(rng, dt, prev, uniform)
+            ops.append(("RX", rng.choice(["grid", "type", "undef", "raise"]), ts, vs, rng.choice([2, 2, 3])))
+        elif r < 0.912:
+            ops.append(("WX", rng.choice(["clear", "reverse", "append", "del0", "extend"])))
+        elif r < 0.922:
+            ops.append(("WH",))
+        elif r < 0.965:
             ops.append(("C", int(rng.random() < 0.5)))
             if rng.random() < 0.7:
                 prev = []
@@ -437,7 +533,7 @@ def nontrivial(ops):
     for o in ops:
         if o[0] in ("R", "R2", "RE", "RE2", "RM"):
             seen_r = True
-        elif seen_r and o[0] in "AWHFDSIM":
+        elif seen_r and (o[0] in "AWHFDSIM" or o[0] in ("WX", "WH")):
             return True
     return False
 
@@ -566,14 +662,22 @@ def gen_degenerate(rng):
             a = build(cfg)
             for ts, vs in sigs:
                 a.receive(Signal(np.array(ts, dtype=float), np.array(vs, dtype=float), Signal.Type.voltage))
-            return a.full_waveform(np.array(w, dtype=float)).values
+            try:
+                return a.full_waveform(np.array(w, dtype=float)).values
+            except RAISES:
+                unchanged_after_refusal(a, sigs, cfg)
+                raise
         return kind, "rejF %s %d%s" % (ss, len(w), "".join(" " + frs(t) for t in w)), thunk
     if kind == "A":
         def thunk():
             a = build(cfg)
             for ts, vs in sigs:
                 a.receive(Signal(np.array(ts, dtype=float), np.array(vs, dtype=float), Signal.Type.voltage))
-            return [w.values for w in a.all_waveforms]
+            try:
+                return [w.values for w in a.all_waveforms]
+            except RAISES:
+                unchanged_after_refusal(a, sigs, cfg)
+                raise
         return kind, "rejA " + ss, thunk
     lead = rng.choice([0.0, 2.5, -1.0, -2.5, 10.0])
     r = rng.random()
@@ -593,6 +697,33 @@ def gen_degenerate(rng):
     return kind, "rejL %s %d%s" % (frs(lead), len(g), "".join(" " + frs(t) for t in g)), thunk
 
 
+class StateChanged(Exception):
+    pass
+
+
+def unchanged_after_refusal(a, sigs, cfg):
+    """after a refused query the antenna must report what a twin that never saw the call reports"""
+    np, pyrex, Signal, FunctionSignal = _mods()
+    twin = build(cfg)
+    for ts, vs in sigs:
+        twin.receive(Signal(np.array(ts, dtype=float), np.array(vs, dtype=float), Signal.Type.voltage))
+
+    def report(o):
+        out = [len(o.signals)]
+        for x in (np.array([0.0, 1.0, 2.0, 3.0]), np.array([-3.0, -2.0, -1.0])):
+            try:
+                out.append(list(o.full_waveform(x).values))
+            except RAISES as e:
+                out.append(type(e).__name__)
+        try:
+            out.append(bool(o.is_hit))
+        except RAISES as e:
+            out.append(type(e).__name__)
+        return out
+    if report(a) != report(twin):
+        raise StateChanged("after the refused call %s, a twin reports %s" % (report(a), report(twin)))
+
+
 def check_rejections(run):
     """the model rejects exactly where the implementation raises, and it raises IndexError / ValueError /
     OverflowError (never returns garbage from a window of one sample, an empty signal, ...)"""
@@ -606,6 +737,8 @@ def check_rejections(run):
                 warnings.simplefilter("ignore")
                 thunk()
             imp = "accept"
+        except StateChanged as e:
+            imp = "refused call changed the state: %s" % str(e)[:200]
         except RAISES as e:
             imp = "reject"
             run.count("rejected_%s_%s" % (kind, type(e).__name__))
@@ -985,6 +1118,24 @@ def oracle(cfg, ops):
         for i, op in enumerate(ops):
             k = op[0]
             try:
+                if k == "RX":
+                    # a refused reception must leave the object exactly as it was (the fresh twin below never sees it)
+                    before = (len(inner.signals), len(obj.signals), len(obj._all_waves), len(obj._triggers),
+                              inner._noise_master)
+                    why = silent_op(obj, op, None)
+                    if why:
+                        return "op %d: %s" % (i, why)
+                    after = (len(inner.signals), len(obj.signals), len(obj._all_waves), len(obj._triggers),
+                             inner._noise_master)
+                    if after != before:
+                        return "op %d: a refused reception changed the antenna (signals/caches %s -> %s)" % (
+                            i, before[:4], after[:4])
+                    continue
+                if k in ("WX", "WH"):
+                    op, k = tuple(op), "W"          # checked as the `waveforms` query it is; then the list is used
+                    use_after = op
+                else:
+                    use_after = None
                 if k in ("R", "R2", "RE", "RE2", "RM"):
                     sigs.append((list(op[1]), [0.0] * len(op[1]) if k in ("RE", "RE2") else
                                  list(op[2]) if k in ("R", "RM") else [a + b for a, b in zip(op[2], op[3])]))
@@ -1107,8 +1258,14 @@ def oracle(cfg, ops):
                                 "trigger'" % i)
                 if cfg["noisy"] and inner._noise_master is not finner._noise_master:
                     return "op %d: noise master replaced during a query" % i
+                if use_after is not None:
+                    use_returned_list(obj, use_after, obj.waveforms)
+                if held_changed(obj):
+                    return "op %d: a list returned by `waveforms` earlier changed after it was handed out" % i
             except Exception as e:
                 return "op %d (%s): exception %s: %s" % (i, k, type(e).__name__, str(e)[:100])
+        if held_changed(obj):
+            return "a list returned by `waveforms` changed after it was handed out (clear / later receptions)"
     return None
 
 
